@@ -132,6 +132,11 @@ func report(o *Options, p *Program, v *Verifier, keys []string, obls []*Obligati
 
 	// violations
 	os.MkdirAll(filepath.Join(o.out, "replays"), 0o755)
+	if old, _ := filepath.Glob(filepath.Join(o.out, "replays", o.prop+"-*")); o.funcs == "" {
+		for _, f := range old {
+			os.Remove(f)
+		}
+	}
 	nviol := 0
 	var knownLines []string
 	var violLines []string
